@@ -1,4 +1,15 @@
-//! C01 — see /verif/DESIGN.md §3.
+//! C01 — parsing and traversing untrusted font bytes never panics or hangs;
+//! observations are a pure function of the bytes. See /verif/DESIGN.md §3.
+pub mod font;
+pub mod h_core;
+pub mod h_layout;
+pub mod h_misc;
+pub mod h_ps;
+pub mod h_var;
+pub mod obs;
+pub mod sets;
+pub mod walk;
+
 use vf_core::{Args, Ctx};
 
 pub const REPLAY: Option<fn(&mut Ctx, &Args, &serde_json::Value, Option<&[u8]>)> = None;
